@@ -103,6 +103,9 @@ func c06Pass(env *lib.Env, rep *lib.Report, r *queryRunner, deep bool) {
 			{atoms: []qAtom{{qc(a, "k"), qc(b, "k"), "="}}},
 			{atoms: []qAtom{{qc(b, "k"), qc(a, "k"), "!="}}},
 			{atoms: []qAtom{{qc(a, "k"), qc(b, "k"), "<="}}},
+			// an unqualified name that only table t has: fine while t is in the chain once, ambiguous as soon as t is
+			// joined a second time (also when an earlier step of the chain has already resolved it)
+			{atoms: []qAtom{{qc(a, "k"), qc(b, "k"), "="}, {qc("", "p"), ql(int64(10)), ">="}}, ors: []bool{false}},
 			{atoms: []qAtom{{qc(a, "k"), qc(b, "k"), "="}, {qc(b, kb), ql(int64(1)), ">"}}, ors: []bool{false}},
 			{atoms: []qAtom{{qc(a, "k"), qc(b, "k"), "="}, {qc(a, "k"), ql(int64(2)), "="}}, ors: []bool{true}},
 			{atoms: []qAtom{{ql(int64(1)), ql(int64(1)), "="}}},
@@ -129,7 +132,7 @@ func c06Pass(env *lib.Env, rep *lib.Report, r *queryRunner, deep bool) {
 			{atoms: []qAtom{{qc(a, "k"), ql(int64(100)), "<"}, {qc(a, "k"), qc(b, "k"), "="}, {qc(b, "k"), ql(int64(100)), "<"}}, ors: []bool{false, false}},
 		}
 	}
-	const c06BaseConds = 13
+	const c06BaseConds = 14
 	type tchoice struct{ table, alias string }
 	firsts := []tchoice{{"t", ""}, {"t", "x"}}
 	// (aliases that differ from another table id only in letter case are still different ids)
@@ -203,7 +206,7 @@ func c06Pass(env *lib.Env, rep *lib.Report, r *queryRunner, deep bool) {
 		}
 	}
 	rep.Bounds["FROM clauses with a repeated table id"] = fmt.Sprintf("%d (unaliased self-join, two tables under one alias, the same table twice under one alias, an alias equal to another table's name, t JOIN u JOIN t; ON 1 = 1 and ON k = 1): SELECT k and ON k = 1 must be rejected", nDup)
-	rep.Bounds["FROM clauses"] = fmt.Sprintf("%d join chains (1..2 joins; INNER JOIN / JOIN / LEFT JOIN / RIGHT JOIN; self-joins under aliases; 20 ON conditions incl. the bare literals TRUE / FALSE, chains of three and four terms under one connective, ordering comparisons with the literal on the left, an ambiguous unqualified name behind AND / OR, AND/OR, mixed AND/OR of three atoms and constants)", len(froms))
+	rep.Bounds["FROM clauses"] = fmt.Sprintf("%d join chains (1..2 joins; INNER JOIN / JOIN / LEFT JOIN / RIGHT JOIN; self-joins under aliases; 21 ON conditions incl. an unqualified name that becomes ambiguous at a later join step, the bare literals TRUE / FALSE, chains of three and four terms under one connective, ordering comparisons with the literal on the left, an ambiguous unqualified name behind AND / OR, AND/OR, mixed AND/OR of three atoms and constants)", len(froms))
 	cT, cU, cV := c06Contents("t"), c06Contents("u"), c06Contents("v")
 	rep.Bounds["table contents"] = fmt.Sprintf("%d x %d x %d: all multisets of <= 2 rows over keys {1,2} per table (empty sides, duplicate keys); for t and u also two contents whose second row has NULL in every non-key column", len(cT), len(cU), len(cV))
 	rep.Bounds["select lists per FROM"] = "*; all columns qualified by table id; unqualified unique column; unqualified ambiguous column k (must be rejected); column qualified by the table name although an alias exists (must be rejected)"
